@@ -151,6 +151,7 @@ type VC struct {
 	assertsSeen       int
 	assertHit         map[string]bool
 	foldedCases       int
+	sliceDefs         map[string]*Term // named constants defined as mk-slice(...): their components fold
 	tableEpoch        int
 }
 
@@ -231,6 +232,12 @@ func (vc *VC) define(hint string, t *Term) *Term {
 	}
 	c := vc.fresh(hint, t.S)
 	vc.facts = append(vc.facts, Eq(c, t))
+	if t.Op == "mk-slice" {
+		if vc.sliceDefs == nil {
+			vc.sliceDefs = map[string]*Term{}
+		}
+		vc.sliceDefs[c.Op] = t
+	}
 	return c
 }
 
